@@ -37,7 +37,7 @@ func checkEngine(id, tier, replay string) int {
 		rep.Assumptions = []string{"nothing beyond the five rules of the statement is demanded; other irregularities are recorded as anomalies"}
 	case "C07":
 		rep.Rule = fmt.Sprintf("%d seeded pairs per device type %v with an unmanaged layer mixed into the device (NSX: policies, groups, services without the Netspoc prefix, also referenced from Netspoc rules). "+
-			"After every executed command the unmanaged projection of the model must be unchanged. Non-trivial = non-empty script executed on a device that holds unmanaged content.", n, types)
+			"After every executed command the unmanaged projection of the model must be unchanged. Every 4th NSX pair is a complete live approve against the simulator backed by the model, with foreign ids that contain the prefix elsewhere, differ in case or extend it. Non-trivial = non-empty script executed on a device that holds unmanaged content.", n, types)
 	}
 	base := env.Seed*1000003 + 500000
 	total := len(types) * n
@@ -45,8 +45,16 @@ func checkEngine(id, tier, replay string) int {
 		typ := types[i%len(types)]
 		g := genPair(typ, base+int64(i/len(types)))
 		o := runConv(env, g, false)
+		live := ""
+		if typ == "nsx" && (i/len(types))%4 == 1 {
+			// Live session: what counts as the tool's own objects is
+			// decided by its live loading code, not by the harness.
+			o = runConvLiveNSX(env, g)
+			live = "live:"
+			rep.Count("live_sessions_nsx", 1)
+		}
 		nontrivial := o.Nontrivial && (id != "C08" || len(o.Commands) >= 2)
-		rep.Case(run.Hash(g.Device, fmt.Sprint(g.Files)), nontrivial)
+		rep.Case(run.Hash(live, g.Device, fmt.Sprint(g.Files)), nontrivial)
 		if o.Crashed {
 			rep.Inconclusive("tool-crash(decided by C01-C04 on the same generators and by C20)")
 			return
@@ -70,9 +78,9 @@ func checkEngine(id, tier, replay string) int {
 			if o.ExecStep < len(o.Commands) {
 				head = cmdHead(o.Commands[o.ExecStep])
 			}
-			key := fmt.Sprintf("%s:%s:%s", typ, strings.TrimPrefix(c.Name, "rejected:"), head)
+			key := fmt.Sprintf("%s:%s%s:%s", typ, live, strings.TrimPrefix(c.Name, "rejected:"), head)
 			if id == "C07" {
-				key = fmt.Sprintf("%s:%s", typ, c.Name)
+				key = fmt.Sprintf("%s:%s%s", typ, live, c.Name)
 			}
 			rep.Violation(key, c.What+fmt.Sprintf(" [seed=%d edits=%v]", g.Seed, g.Edits), func(dir string) {
 				writeConvReplay(dir, g, o)
